@@ -10,6 +10,8 @@ import (
 	"math/big"
 	"os"
 	"runtime"
+	"runtime/debug"
+	"strings"
 	"sync"
 	"time"
 
@@ -85,10 +87,11 @@ type PropRes struct {
 }
 
 type Out struct {
-	mu sync.Mutex
-	w  *bufio.Writer
-	n  int
-	pf string
+	mu   sync.Mutex
+	w    *bufio.Writer
+	n    int
+	pf   string
+	path string
 }
 
 func NewOut(path, prefix string) (*Out, func()) {
@@ -96,7 +99,8 @@ func NewOut(path, prefix string) (*Out, func()) {
 	if err != nil {
 		panic(err)
 	}
-	o := &Out{w: bufio.NewWriterSize(f, 1<<20), pf: prefix}
+	o := &Out{w: bufio.NewWriterSize(f, 1<<20), pf: prefix, path: path}
+	_ = os.Remove(path + ".pending")
 	return o, func() { o.w.Flush(); f.Close() }
 }
 
@@ -110,7 +114,24 @@ func setCurrent(o *Out, c *Case) {
 	curMu.Lock()
 	curOut, curCase = o, c
 	curMu.Unlock()
+	// a fatal runtime error (out of memory, stack overflow) kills the process without running any deferred code:
+	// leave a note naming the case being executed, and make sure everything before it is on disk
+	if o != nil && c != nil && o.path != "" {
+		o.mu.Lock()
+		o.w.Flush()
+		o.mu.Unlock()
+		if b, err := json.Marshal(c); err == nil {
+			_ = os.WriteFile(o.path+".pending", b, 0o644)
+		}
+	} else if o == nil && curPath != "" {
+		_ = os.Remove(curPath + ".pending")
+	}
+	if o != nil {
+		curPath = o.path
+	}
 }
+
+var curPath string
 
 // abortWith records the current case as a hang / memory blow-up and ends the process: a runaway goroutine cannot be stopped any other way.
 func abortWith(class string) {
@@ -182,9 +203,31 @@ func errClass(e error) string {
 	return "err"
 }
 
-type panicErr struct{ v any }
+type panicErr struct {
+	v     any
+	stack string
+}
 
-func (p *panicErr) Error() string { return fmt.Sprintf("panic: %v", p.v) }
+func (p *panicErr) Error() string { return fmt.Sprintf("panic: %v @ %s", p.v, p.stack) }
+
+// the innermost non-runtime frames of the panicking goroutine
+func shortStack() string {
+	lines := strings.Split(string(debug.Stack()), "\n")
+	var out []string
+	for _, l := range lines {
+		l = strings.TrimSpace(l)
+		if strings.HasPrefix(l, "/") && !strings.Contains(l, "/runtime/") && !strings.Contains(l, "harness/common.go") {
+			if i := strings.LastIndex(l, " +0x"); i > 0 {
+				l = l[:i]
+			}
+			out = append(out, l)
+			if len(out) >= 4 {
+				break
+			}
+		}
+	}
+	return strings.Join(out, " < ")
+}
 
 var errHang = errors.New("hang")
 var errNilNil = errors.New("nil result with nil error")
@@ -200,7 +243,7 @@ func guard[T any](timeout time.Duration, f func() (T, error)) (res T, err error)
 		defer func() {
 			if r := recover(); r != nil {
 				var z T
-				ch <- rt{z, &panicErr{r}}
+				ch <- rt{z, &panicErr{r, shortStack()}}
 			}
 		}()
 		v, e := f()
